@@ -5,9 +5,10 @@ import (
 	"fmt"
 	"os"
 	"runtime"
-	"strings"
 	"sort"
+	"strings"
 	"sync"
+	"sync/atomic"
 	"time"
 )
 
@@ -238,15 +239,15 @@ type Node[Ev any] interface {
 // BFSSpec describes one closure. Successors are produced by replaying the shortest
 // path on a fresh pair (New + Apply...) or, when Clone is set, by copying the parent.
 type BFSSpec[St any, Ev any, N Node[Ev]] struct {
-	Name     string
-	Starts   []St
-	New      func(s St) N
+	Name   string
+	Starts []St
+	New    func(s St) N
 	// Save/Load (optional, both or neither): snapshot a node and restore it in place into a
 	// per-worker scratch node; makes successors cheap. Without them successors are replayed.
-	Save func(n N) any
-	Load func(n N, snap any)
-	Events   func(n N) []Ev      // alphabet enabled in n (usually constant)
-	IsDev    func(ev Ev) bool    // deviation = environment event other than the default
+	Save     func(n N) any
+	Load     func(n N, snap any)
+	Events   func(n N) []Ev   // alphabet enabled in n (usually constant)
+	IsDev    func(ev Ev) bool // deviation = environment event other than the default
 	MaxDepth int
 	MaxDev   int // <0: unbounded
 	Opt      PartOpt
@@ -270,10 +271,19 @@ type bfsNode[St any, Ev any, N any] struct {
 	has   bool
 }
 
+func safeApply[Ev any, N Node[Ev]](n N, ev Ev) (f *Fail) {
+	defer func() {
+		if p := recover(); p != nil {
+			f = &Fail{Sig: "panic: " + panicSite(), Msg: fmt.Sprintf("panic: %v", p)}
+		}
+	}()
+	return n.Apply(ev)
+}
+
 func replayPath[St any, Ev any, N Node[Ev]](spec *BFSSpec[St, Ev, N], c BFSCase[St, Ev]) (N, *Fail) {
 	n := spec.New(c.Start)
 	for _, ev := range c.Events {
-		if f := n.Apply(ev); f != nil {
+		if f := safeApply(n, ev); f != nil {
 			return n, f
 		}
 		if spec.Invariant != nil {
@@ -327,7 +337,6 @@ func BFS[St any, Ev any, N Node[Ev]](r *Report, spec BFSSpec[St, Ev, N]) {
 	if len(spec.Starts) > 0 {
 		r.Sample(map[string]any{"part": name, "start": spec.Starts[0]})
 	}
-	outc := map[uint64]struct{}{}
 	var trans int64
 	depth := 0
 	type child struct {
@@ -352,6 +361,8 @@ func BFS[St any, Ev any, N Node[Ev]](r *Report, spec BFSSpec[St, Ev, N]) {
 				defer wg.Done()
 				var scratch N
 				haveScratch := false
+				var myTrans int64
+				defer func() { atomic.AddInt64(&trans, myTrans) }()
 				for i := range idx {
 					parent := frontier[i]
 					var base N
@@ -397,23 +408,30 @@ func BFS[St any, Ev any, N Node[Ev]](r *Report, spec BFSSpec[St, Ev, N]) {
 							}
 						}
 						baseFresh = false
-						path := append(append(make([]Ev, 0, len(parent.path)+1), parent.path...), ev)
-						f := n.Apply(ev)
+						f := safeApply(n, ev)
 						if f == nil && spec.Invariant != nil {
 							f = spec.Invariant(n)
 						}
-						c := child{fail: f, path: path}
+						myTrans++
 						if f == nil {
-							c.key = n.Key()
+							key := n.Key()
 							if spec.MaxDev >= 0 {
-								c.key = fmt.Sprintf("%s|d%d", c.key, dev)
+								key = fmt.Sprintf("%s|d%d", key, dev)
 							}
+							if _, ok := seen[key]; ok { // read-only during a level
+								continue
+							}
+							path := append(append(make([]Ev, 0, len(parent.path)+1), parent.path...), ev)
+							c := child{key: key, path: path}
 							c.node = &bfsNode[St, Ev, N]{start: parent.start, path: path, dev: dev}
 							if spec.Save != nil {
 								c.node.snap, c.node.has = spec.Save(n), true
 							}
+							results[i] = append(results[i], c)
+						} else {
+							path := append(append(make([]Ev, 0, len(parent.path)+1), parent.path...), ev)
+							results[i] = append(results[i], child{fail: f, path: path})
 						}
-						results[i] = append(results[i], c)
 					}
 					parent.snap, parent.has = nil, false
 				}
@@ -427,7 +445,6 @@ func BFS[St any, Ev any, N Node[Ev]](r *Report, spec BFSSpec[St, Ev, N]) {
 		var next []*bfsNode[St, Ev, N]
 		for i, cs := range results {
 			for _, c := range cs {
-				trans++
 				if c.fail != nil {
 					if c.fail.Sig == "harness-divergence" {
 						r.HarnessError("part %s: %s", name, c.fail.Msg)
@@ -436,7 +453,6 @@ func BFS[St any, Ev any, N Node[Ev]](r *Report, spec BFSSpec[St, Ev, N]) {
 					r.addViolation(name, c.fail, BFSCase[St, Ev]{frontier[i].start, c.path})
 					continue
 				}
-				outc[Hash(c.key)] = struct{}{}
 				if _, ok := seen[c.key]; ok {
 					continue
 				}
@@ -473,7 +489,7 @@ func BFS[St any, Ev any, N Node[Ev]](r *Report, spec BFSSpec[St, Ev, N]) {
 	ps.Transitions = trans
 	ps.Evaluations = trans
 	ps.Cases = int64(len(seen))
-	ps.Outcomes = len(outc)
+	ps.Outcomes = len(seen)
 	ps.MaxDepth = depth
 	// confirm failures 5x
 	r.mu.Lock()
